@@ -260,20 +260,21 @@ func (c c22Case) String() string {
 }
 
 type c22Result struct {
-	viol       string
-	violKey    string
-	inconc     string
-	ops        int
-	accepted   int
-	rejected   int
-	changed    int
-	rewrites   int // file content (bytes) differed after an op
-	modelAgree int
-	faults     int
-	occupied   int
-	staleSpans int
-	healed     int
-	trace      []string
+	viol               string
+	violKey            string
+	inconc             string
+	ops                int
+	accepted           int
+	rejected           int
+	changed            int
+	rewrites           int // file content (bytes) differed after an op
+	modelAgree         int
+	faults             int
+	noChangeUnderFault int
+	occupied           int
+	staleSpans         int
+	healed             int
+	trace              []string
 }
 
 func c22Run(t *testing.T, c c22Case, dir string, seed int64) c22Result {
@@ -332,6 +333,13 @@ func c22Run(t *testing.T, c c22Case, dir string, seed int64) c22Result {
 			}
 			return live, file, raw, true
 		}
+		// noChange: by the reference, the request leaves key set and primary key as they are (a copy is
+		// asked, the reference itself is not touched)
+		noChange := func(op c22Op) bool {
+			cp := c22Model{keys: append([]string(nil), model.keys...)}
+			_, chg := cp.apply(op)
+			return !chg && op.Kind != "list"
+		}
 		prevLive, prevFile, prevRaw, ok := check("before any request")
 		if !ok {
 			return
@@ -360,6 +368,14 @@ func c22Run(t *testing.T, c c22Case, dir string, seed int64) c22Result {
 				}
 				res.occupied++
 				live := c22Ring(nd.ML.Keyring)
+				if noChange(op) {
+					res.noChangeUnderFault++
+					if !stale && live.set() != prevLive.set() {
+						res.viol = fmt.Sprintf("step %d %s(%s key=%q), handled while the keyring file could not be written, asks for nothing to change (the key is already installed / not in the keyring / already primary / invalid), so no write was needed; yet the node's keyring went from {%s} to {%s} and the file still loads into {%s}", i, op.Kind, op.Desc, op.Key, prevLive.set(), live.set(), prevFile.set())
+						res.violKey = "file-differs-from-keyring/no-change-request-under-write-fault"
+						return
+					}
+				}
 				if live.set() != prevLive.set() {
 					stale = true
 					res.staleSpans++
@@ -390,6 +406,14 @@ func c22Run(t *testing.T, c c22Case, dir string, seed int64) c22Result {
 					synctest.Wait()
 					_ = os.Rename(away, dir)
 					res.faults++
+					if noChange(op) {
+						res.noChangeUnderFault++
+						if live := c22Ring(nd.ML.Keyring); !stale && live.set() != prevLive.set() {
+							res.viol = fmt.Sprintf("step %d %s(%s key=%q), first handled while the keyring file could not be written, asks for nothing to change (the key is already installed / not in the keyring / already primary / invalid), so no write was needed; yet the node's keyring went from {%s} to {%s} and the file still loads into {%s}", i, op.Kind, op.Desc, op.Key, prevLive.set(), live.set(), prevFile.set())
+							res.violKey = "file-differs-from-keyring/no-change-request-under-write-fault"
+							return
+						}
+					}
 				}
 			}
 			switch op.Kind {
@@ -478,6 +502,7 @@ func TestC22(t *testing.T) {
 		r.Count("file_reloads_compared", res.ops+1)
 		r.Count("model_agreements", res.modelAgree)
 		r.Count("requests_repeated_after_a_failed_file_write", res.faults)
+		r.Count("requests_changing_nothing_handled_under_a_write_fault", res.noChangeUnderFault)
 		r.Count("requests_failed_with_the_file_place_occupied", res.occupied)
 		r.Count("of_those_leaving_the_file_behind_the_keyring", res.staleSpans)
 		r.Count("stale_files_healed_by_the_next_accepted_request", res.healed)
